@@ -17,6 +17,18 @@ def task():
     return Task(w, metapype_io._format_extras, con, name="C08/metapype_io._format_extras").run()
 
 
+def task_policy(clean, collapse, literal):
+    """_process_element up to its attribute loop: local name, namespace map, prefix and the whitespace policy of text and tail for one element"""
+    from pyvc.task import Task
+    from contracts.prelude import make_world
+    from contracts import c08_import
+    from metapype.model import metapype_io
+    w = make_world()
+    con = c08_import.install(w, clean, collapse, literal)
+    return Task(w, metapype_io._process_element, con,
+                name=f"C08/_process_element[one element: clean={clean}, collapse={collapse}, tag {'is' if literal else 'is not'} literal]").run()
+
+
 TEXTS = [None, "t", "  t  ", " ", "\t", "\xa0", " \xa0\t ", "  \n", "\n  ", "a  b\n c", "x &amp; y", "<![CDATA[<raw> & ]]>", ""]
 
 
@@ -155,10 +167,16 @@ def _all(n):
 
 def main(tier, seed):
     t0 = time.time()
-    results = common.run_tasks([("props.C08", "task", {})])
+    specs = [("props.C08", "task", {})]
+    specs += [("props.C08", "task_policy", {"clean": c, "collapse": k, "literal": l}) for c in (False, True) for k in (False, True) for l in (False, True)]
+    results = common.run_tasks(specs)
     b = bounded(tier, seed)
     return common.decide(PID, tier, seed, results, b, t0, "DESIGN.md §4 C08", extra_assumptions=[
         "proved: metapype_io._format_extras rewrites a qualified attribute name {uri}local to prefix:local with the prefix of the last binding whose "
         "URI equals the braces' content, and leaves unqualified or unbound names alone (re.match enters as uninterpreted ok/group functions: A-re)",
-        "BOUNDED, not proved: _process_element / from_xml against lxml's element API (the infoset is exposed by libxml2, outside the reach of contracts) "
-        "and the import-export-import stability, which needs the XML parser on the exporter's output"])
+        "proved: what _process_element makes of ONE element before it turns to attributes and children — a fresh node named by the local part of the "
+        "tag, the element's namespace map and prefix, and the whitespace policy of text and tail in all four clean/collapse combinations, with the tag "
+        "listed as literal or not (the lxml element is an abstract object; strip / split-join / find / re.fullmatch are uninterpreted: A-str, A-re); "
+        "the rest of the function (attributes, children, sharing of namespace maps) is NOT VERIFIED deductively",
+        "BOUNDED, not proved: the tree _process_element / from_xml build from lxml's element API (the infoset is exposed by libxml2), which strings the "
+        "uninterpreted string functions return, and the import-export-import stability, which needs the XML parser on the exporter's output"])
